@@ -61,42 +61,83 @@ pub fn contract_parse_idat(png: &[u8], _lvl: u32) -> Result<(IdatContents, Vec<u
     Ok((IdatContents { chunk_sizes: Vec::new(), zlib_header: [0, 0], total_chunk_length: t, addler32: 0 }, vec![0u8; 1]))
 }
 
-/// real scanner loop, every file of exactly N bytes
-fn scan_tiling<const N: usize>() {
-    let data: [u8; N] = kani::any();
-    let mut locs: Vec<BlockChunk> = Vec::new();
-    split_into_deflate_streams(&data[..], &mut locs, 0);
-    // what expand_zlib_chunks does with the result: slice literals out of the file
+/// number of positions holding a two-byte signature (what next_signature stops at)
+fn signature_hits(d: &[u8]) -> usize {
+    let mut n = 0;
+    let mut i = 0;
+    while i + 1 < d.len() {
+        let s = u16::from_le_bytes([d[i], d[i + 1]]);
+        if s == 0x0178 || s == 0x5E78 || s == 0x9C78 || s == 0xDA78 || s == 0x4B50 || s == 0x8B1F || s == 0x4449 { n += 1; }
+        i += 1;
+    }
+    n
+}
+
+/// what expand_zlib_chunks does with the scanner's result: slice literals out of the file
+fn check_tiling(locs: &Vec<BlockChunk>, n: usize, maxchunks: usize) -> bool {
     let mut index = 0usize;
     let mut saw_stream = false;
     let mut i = 0;
-    while i < locs.len() {
-        match &locs[i] {
-            BlockChunk::Literal(n) => {
-                assert!(*n <= N - index, "literal chunk longer than the remaining file (expand would slice out of range)");
-                index += *n;
+    while i < maxchunks {
+        if i < locs.len() {
+            match &locs[i] {
+                BlockChunk::Literal(k) => {
+                    assert!(*k <= n - index, "literal chunk longer than the remaining file (expand would slice out of range)");
+                    index += *k;
+                }
+                BlockChunk::DeflateStream(r) => { index += r.compressed_size; saw_stream = true; }
+                BlockChunk::IDATDeflate(id, _r) => { index += id.total_chunk_length; saw_stream = true; }
             }
-            BlockChunk::DeflateStream(r) => { index += r.compressed_size; saw_stream = true; }
-            BlockChunk::IDATDeflate(id, _r) => { index += id.total_chunk_length; saw_stream = true; }
+            assert!(index <= n, "chunks overrun the file");
         }
-        assert!(index <= N, "chunks overrun the file");
         i += 1;
     }
-    assert!(index == N, "chunks do not tile the file");
-    kani::cover!(saw_stream, "a stream chunk was emitted");
-    kani::cover!(locs.len() >= 3, "literal, stream, literal");
-    core::mem::forget(locs);
+    assert!(locs.len() <= maxchunks);
+    assert!(index == n, "chunks do not tile the file");
+    saw_stream
 }
 
 kproof! {
-    /// K01a: scanner tiling, all 7-byte files, the four callees replaced by their contracts.
-    /// MIN_BLOCKSIZE for the IDAT arm is compared with total_chunk_length, which is <= N here, so the
-    /// IDAT *acceptance* branch is exercised by k01a_scan_idat_arm instead.
+    /// K01a: scanner tiling, every 8-byte file with at most two signature look-alikes,
+    /// the four callees replaced by their contracts
     #[kani::stub(crate::preflate_container::decompress_deflate_stream, contract_decompress)]
     #[kani::stub(crate::scan_deflate::skip_gzip_header, contract_skip_gzip)]
     #[kani::stub(crate::scan_deflate::parse_zip_stream, contract_parse_zip)]
     #[kani::stub(crate::idat_parse::parse_idat, contract_parse_idat)]
-    fn k01a_scan_tiling_7() { scan_tiling::<7>(); }
+    fn k01a_scan_tiling_8() {
+        let data: [u8; 8] = kani::any();
+        kani::assume(signature_hits(&data) <= 2);
+        let mut locs: Vec<BlockChunk> = Vec::with_capacity(8);
+        split_into_deflate_streams(&data[..], &mut locs, 0);
+        let saw = check_tiling(&locs, 8, 6);
+        kani::cover!(saw, "a stream chunk was emitted");
+        kani::cover!(locs.len() >= 3, "literal, stream, literal");
+        core::mem::forget(locs);
+    }
+}
+
+kproof! {
+    /// K01a': a 1056-byte file = 16 symbolic bytes followed by zeros (no signature in the zero part), so
+    /// that every arm can ACCEPT: gzip/zip headers fit, and an IDAT run can exceed MIN_BLOCKSIZE.
+    #[kani::stub(crate::preflate_container::decompress_deflate_stream, contract_decompress)]
+    #[kani::stub(crate::scan_deflate::skip_gzip_header, contract_skip_gzip)]
+    #[kani::stub(crate::scan_deflate::parse_zip_stream, contract_parse_zip)]
+    #[kani::stub(crate::idat_parse::parse_idat, contract_parse_idat)]
+    fn k01a_scan_tiling_big() {
+        const N: usize = 1056;
+        let head: [u8; 16] = kani::any();
+        kani::assume(signature_hits(&head) <= 2);
+        let mut data = [0u8; N];
+        let mut i = 0;
+        while i < 16 { data[i] = head[i]; i += 1; }
+        let mut locs: Vec<BlockChunk> = Vec::with_capacity(8);
+        split_into_deflate_streams(&data[..], &mut locs, 0);
+        let saw = check_tiling(&locs, N, 6);
+        kani::cover!(saw, "a stream chunk was emitted");
+        kani::cover!(locs.len() >= 4, "two streams accepted");
+        kani::cover!(locs.len() >= 2 && matches!(locs[1], BlockChunk::IDATDeflate(..)), "an IDAT run was accepted");
+        core::mem::forget(locs);
+    }
 }
 
 /// the gzip header parser alone: all inputs of <= N bytes
@@ -128,5 +169,118 @@ kproof! {
         kani::cover!(r.is_ok(), "accepted");
         kani::cover!(r.is_ok() && data[26] == 2 && data[28] == 1, "name and extra present");
         core::mem::forget(r);
+    }
+}
+
+// ---------------------------------------------------------------------------
+// C06: embedded streams are found.  The analysis is an OFFSET ORACLE: it accepts (plaintext 1025 bytes,
+// compressed_size = S_LEN) exactly when called on the slice that starts at the true stream start, which
+// the oracle recognises by the slice's length (every start offset gives a different length), and rejects
+// everywhere else ("no other acceptable stream overlaps").  Header parsing, signature table, cursor
+// arithmetic and thresholds are the real code.
+// ---------------------------------------------------------------------------
+pub static mut ORACLE_LEN: usize = usize::MAX;
+pub static mut ORACLE_CS: usize = 0;
+pub static mut ORACLE_CALLS_OK: u32 = 0;
+pub fn oracle_decompress(d: &[u8], verify: bool, _l: u32) -> core::result::Result<DecompressResult, crate::preflate_error::PreflateError> {
+    unsafe {
+        if d.len() == ORACLE_LEN {
+            assert!(verify, "the scanner must analyse with verify = true");
+            ORACLE_CALLS_OK += 1;
+            return Ok(DecompressResult { plain_text: vec![0u8; 1025], prediction_corrections: Vec::new(), compressed_size: ORACLE_CS, parameters: dummy_params() });
+        }
+    }
+    Err(crate::preflate_error::PreflateError::new(ExitCode::InvalidDeflate, ""))
+}
+
+const S_LEN: usize = 3; // bytes of the embedded stream S (its content is irrelevant to the oracle)
+
+/// common epilogue: S must be emitted as a stream chunk starting exactly at `t`
+fn assert_found(locs: &Vec<BlockChunk>, t: usize) {
+    assert!(locs.len() >= 2, "the embedded stream was not found (file copied as literal)");
+    match &locs[0] { BlockChunk::Literal(n) => assert!(*n == t, "literal before the stream does not end at the stream start"), _ => assert!(false, "first chunk is not the literal prefix") }
+    assert!(matches!(&locs[1], BlockChunk::DeflateStream(_)), "second chunk is not the expanded stream");
+}
+
+kproof! {
+    /// K06a: zlib header 78 01 | 78 5E | 78 9C | 78 DA behind 2 arbitrary bytes
+    #[kani::stub(crate::preflate_container::decompress_deflate_stream, oracle_decompress)]
+    fn k06a_find_zlib() {
+        const N: usize = 2 + 2 + S_LEN + 2;
+        let mut f: [u8; N] = kani::any();
+        f[2] = 0x78;
+        let k: u8 = kani::any();
+        kani::assume(k < 4);
+        f[3] = match k { 0 => 0x01, 1 => 0x5E, 2 => 0x9C, _ => 0xDA };
+        kani::assume(signature_hits(&f) == 1); // the wrapper's own signature is the only look-alike
+        unsafe { ORACLE_LEN = N - 4; ORACLE_CS = S_LEN; }
+        let mut locs: Vec<BlockChunk> = Vec::with_capacity(8);
+        split_into_deflate_streams(&f[..], &mut locs, 0);
+        assert_found(&locs, 4);
+        kani::cover!(k == 3, "78 DA");
+        core::mem::forget(locs);
+    }
+}
+
+kproof! {
+    /// K06b: gzip header with every combination of FEXTRA / FNAME / FCOMMENT / FHCRC (small fields)
+    #[kani::stub(crate::preflate_container::decompress_deflate_stream, oracle_decompress)]
+    fn k06b_find_gzip() {
+        const N: usize = 2 + 10 + 4 + 3 + 3 + 2 + S_LEN + 2;
+        let mut f: [u8; N] = kani::any();
+        f[2] = 0x1f; f[3] = 0x8b; f[4] = 8;
+        let flg: u8 = f[5];
+        kani::assume(flg & 0xe0 == 0);
+        let mut p = 12usize;
+        if flg & 4 != 0 {
+            let xlen: usize = kani::any();
+            kani::assume(xlen <= 2);
+            f[p] = xlen as u8; f[p + 1] = 0; p += 2 + xlen;
+        }
+        if flg & 8 != 0 {
+            let nl: usize = kani::any();
+            kani::assume(nl <= 2);
+            let mut i = 0; while i < 2 { if i < nl { kani::assume(f[p + i] != 0); } i += 1; }
+            f[p + nl] = 0; p += nl + 1;
+        }
+        if flg & 16 != 0 {
+            let cl: usize = kani::any();
+            kani::assume(cl <= 2);
+            let mut i = 0; while i < 2 { if i < cl { kani::assume(f[p + i] != 0); } i += 1; }
+            f[p + cl] = 0; p += cl + 1;
+        }
+        if flg & 2 != 0 { p += 2; }
+        let t = p;
+        kani::assume(signature_hits(&f) == 1);
+        unsafe { ORACLE_LEN = N - t; ORACLE_CS = S_LEN; }
+        let mut locs: Vec<BlockChunk> = Vec::with_capacity(8);
+        split_into_deflate_streams(&f[..], &mut locs, 0);
+        assert_found(&locs, t);
+        kani::cover!(flg == 0x1e, "all optional fields");
+        kani::cover!(flg == 0, "bare header");
+        core::mem::forget(locs);
+    }
+}
+
+kproof! {
+    /// K06c: ZIP local file header, method 8, name/extra lengths 0..=2
+    #[kani::stub(crate::preflate_container::decompress_deflate_stream, oracle_decompress)]
+    fn k06c_find_zip() {
+        const N: usize = 2 + 30 + 2 + 2 + S_LEN + 2;
+        let mut f: [u8; N] = kani::any();
+        f[2] = 0x50; f[3] = 0x4b; f[4] = 3; f[5] = 4;
+        f[10] = 8; f[11] = 0; // compression method (offset 8 in the header)
+        let nl: usize = kani::any();
+        let el: usize = kani::any();
+        kani::assume(nl <= 2 && el <= 2);
+        f[28] = nl as u8; f[29] = 0; f[30] = el as u8; f[31] = 0;
+        let t = 2 + 30 + nl + el;
+        kani::assume(signature_hits(&f) == 1);
+        unsafe { ORACLE_LEN = N - t; ORACLE_CS = S_LEN; }
+        let mut locs: Vec<BlockChunk> = Vec::with_capacity(8);
+        split_into_deflate_streams(&f[..], &mut locs, 0);
+        assert_found(&locs, t);
+        kani::cover!(nl == 2 && el == 2, "name and extra field present");
+        core::mem::forget(locs);
     }
 }
